@@ -23,6 +23,8 @@ THEOREMS = [
     "Mesa.Viz.C20_draw_ok_one_marker_per_agent",
     "Mesa.Viz.C20_V7_some_agents_optional_drawn",
     "Mesa.Viz.C20_empty_space_draws_nothing",
+    "Mesa.Viz.C20_draw_kwargs",
+    "Mesa.Viz.C20_draw_kwargs_apply_to_every_marker",
     "Mesa.Viz.C20_hex_marker_at_hexagon_centre",
     "Mesa.Viz.C20_distinct_locations_distinct_positions",
     "Mesa.Viz.C20_altair_one_row_per_agent",
@@ -70,7 +72,7 @@ RULE = ("40% space scenarios: one of 12 space classes (4 mesa.space grids, 3 dis
         "non-contiguous node labels and possibly no edges, Voronoi, 2 continuous spaces), sizes 1-5, 0-6 agents with several per cell, "
         "agents never placed, a pool of 0-4 portrayal dict *objects* shared between agents (keys color/size/marker/zorder, colours as names and as RGB(A) tuples — none / all / mixed —, the optional "
         "alpha/edgecolors/linewidths under an all/none/some policy, unsupported keys), interleaved place/move/remove/dict-rewrite/"
-        "re-portray ops and observations collect_agent_data / draw_space (Agg) / Altair _draw_grid (rows, encoded channels, x/y type, tooltip fields, default "
+        "re-portray ops and observations collect_agent_data / draw_space (Agg; also with plotting keywords alpha / edgecolors / linewidths) / Altair _draw_grid (rows, encoded channels, x/y type, tooltip fields, default "
         "mark size) / the solara components SpaceMatplotlib and SpaceAltair with the portrayal and with their default portrayals / heap dump / property layers "
         "(1-3 named layers, requests of 1-4 entries in any order incl. names the space has no layer for; colour or colormap or neither; "
         "alpha absent / 25 / 50 / 100 %; range automatic, one-sided, explicit incl. without extent, cutting the data and inverted; colour bar "
@@ -133,7 +135,7 @@ def nontrivial(sc, obs):
         w = l.split()
         if w[0] in ("collect", "collectd") and re.match(r"ok n=([2-9]|\d\d)", o):
             return True
-        if w[0] in ("draw", "drawc", "drawc0") and sum(int(n) for n in re.findall(r" n=(\d+)", o)) >= 2:
+        if w[0] in ("draw", "drawc", "drawc0", "drawk") and sum(int(n) for n in re.findall(r" n=(\d+)", o)) >= 2:
             return True
         if w[0] in ("altair", "altairc", "altairc0") and o.count(" | ") >= 2:
             return True
@@ -155,12 +157,14 @@ def tags(sc, obs):
                 placed += 1
             if w[0] == "remove" and o == "ok":
                 placed -= 1
-            if w[0] in ("collect", "collectd", "draw", "drawc", "drawc0", "altair", "altairc", "altairc0"):
+            if w[0] in ("collect", "collectd", "draw", "drawc", "drawc0", "drawk", "altair", "altairc", "altairc0"):
                 if placed == 0:
                     yield "branch:observe-empty-space"
                 if o.startswith("err"):
                     yield "result:" + o
-            if w[0] in ("draw", "drawc", "drawc0") and o.count(" | ") >= 2:
+            if w[0] == "drawk":
+                yield "drawk:" + ("refused" if o.startswith("err Value conflict") else "dropped" if w0[2] in ("cs", "xcs", "vor") else "applied")
+            if w[0] in ("draw", "drawc", "drawc0", "drawk") and o.count(" | ") >= 2:
                 yield "branch:several-scatter-groups"
             if w[0] in ("collect", "collectd") and "None" in o and o.startswith("ok"):
                 yield "branch:optional-key-for-some-agents"
